@@ -218,12 +218,12 @@ theorem both_remove (sr : StepRel now tOK C R) (st : St) (id : Nat) (u : Bool) (
 end
 
 /-- In a list without the id, extended by a fresh downtime, the name denotes the fresh one. -/
-theorem findDt_append_new (l : List Dt) (p : AddP) (now : Int)
-    (h : l.any (fun d => d.id == p.id) = false) :
-    findDt (l ++ [newDt p now]) p.id = some (newDt p now) := by
+theorem findDt_append_new (st : St) (p : AddP) (now : Int)
+    (h : st.dts.any (fun d => d.id == p.id) = false) :
+    findDt (st.dts ++ [newDt st p now]) p.id = some (newDt st p now) := by
   unfold findDt
   rw [List.find?_append]
-  have : l.find? (live p.id) = none := by
+  have : st.dts.find? (live p.id) = none := by
     apply List.find?_eq_none.mpr
     intro x hx hl
     have hid := live_id hl
@@ -236,8 +236,8 @@ variable {now : Int} {tOK : Int → Prop} {C : Dt → Prop} {R : Dt → Dt → P
 
 /-- What the operation must supply for `tOK`/`C`. -/
 def OpT (st : St) (tOK : Int → Prop) (C : Dt → Prop) : Op → Prop
-  | .add p now => C (newDt p now) ∧
-      (canBeTriggered now (newDt p now) = true → tOK (max (max p.start now) st.lastStateChange))
+  | .add p now => C (newDt st p now) ∧
+      (canBeTriggered now (newDt st p now) = true → tOK (max (max p.start now) st.lastStateChange))
   | .result _ te _ => tOK te
   | _ => True
 
@@ -245,31 +245,31 @@ def OpT (st : St) (tOK : Int → Prop) (C : Dt → Prop) : Op → Prop
 theorem both_add_tail (sr : StepRel now tOK C R) (st : St) (p : AddP)
     (h : st.dts.any (fun d => d.id == p.id) = false) (ha : AllC C st.dts)
     (hop : OpT st tOK C (.add p now)) :
-    Both R (st.dts ++ [newDt p now]) (addOp st p now).1.dts := by
-  have ha0 : AllC C (st.dts ++ [newDt p now]) := by
+    Both R (st.dts ++ [newDt st p now]) (addOp st p now).1.dts := by
+  have ha0 : AllC C (st.dts ++ [newDt st p now]) := by
     intro d hd
     rcases List.mem_append.mp hd with hm | hm
     · exact ha d hm
     · simp at hm; subst hm; exact hop.1
   unfold addOp
   simp only [h]
-  have h1 : Both R (st.dts ++ [newDt p now]) (startFlexible st now (newDt p now) (st.dts ++ [newDt p now])) := by
+  have h1 : Both R (st.dts ++ [newDt st p now]) (startFlexible st now (newDt st p now) (st.dts ++ [newDt st p now])) := by
     unfold startFlexible
     split
-    · by_cases hc : canBeTriggered now (newDt p now) = true
+    · by_cases hc : canBeTriggered now (newDt st p now) = true
       · exact both_triggerDt sr.toTrigRel _ _ (hop.2 hc) _ _ ha0
-      · have hf := findDt_append_new st.dts p now h
-        have : triggerDt ((st.dts ++ [newDt p now]).length + 1) now
-            (max (max (newDt p now).start (newDt p now).entry) st.lastStateChange) (newDt p now).id
-            (st.dts ++ [newDt p now]) = st.dts ++ [newDt p now] := by
-          have hid : (newDt p now).id = p.id := rfl
+      · have hf := findDt_append_new st p now h
+        have : triggerDt ((st.dts ++ [newDt st p now]).length + 1) now
+            (max (max (newDt st p now).start (newDt st p now).entry) st.lastStateChange) (newDt st p now).id
+            (st.dts ++ [newDt st p now]) = st.dts ++ [newDt st p now] := by
+          have hid : (newDt st p now).id = p.id := rfl
           simp only [triggerDt, hid, hf]
           simp [hc]
         rw [this]
         exact both_refl sr.refl _
     · exact both_refl sr.refl _
   have a1 := allc_of_both sr.ctx h1 ha0
-  have h2 := both_startAt sr (startFlexible st now (newDt p now) (st.dts ++ [newDt p now])).length _ p.id a1
+  have h2 := both_startAt sr (startFlexible st now (newDt st p now) (st.dts ++ [newDt st p now])).length _ p.id a1
   have a2 := allc_of_both sr.ctx h2 a1
   have h3 : ∀ l, AllC C l → Both R l (updateDt l p.id setupCleanup) :=
     fun l hl => both_updateDt sr.refl _ _ _ (fun d hd hr => sr.setup d (hl d hd) hr)
@@ -303,7 +303,7 @@ theorem step_succ (st : St) (op : Op) (sr : StepRel op.now tOK C R) (ha : AllC C
 theorem step_pred (st : St) (op : Op) (sr : StepRel op.now tOK C R) (ha : AllC C st.dts)
     (hop : OpT st tOK C op) :
     ∀ d' ∈ (step st op).1.dts, (∃ d ∈ st.dts, R d d') ∨
-      (∃ p, op = .add p op.now ∧ R (newDt p op.now) d') := by
+      (∃ p, op = .add p op.now ∧ R (newDt st p op.now) d') := by
   cases op with
   | add p now =>
     intro d' hd'
